@@ -183,6 +183,75 @@ theorem pipeline_no_abort (ps : List (M → Except E M)) (m : M) (h : firstError
     runPipeline ps true m = runPipeline ps false m := by
   rw [pipeline_strict_reraises, pipeline_nonstrict_total, h]
 
+/-! ### mid-pass aborts: in-place passes and the transactional policy -/
+
+/-- if every pass that COMPLETES preserves the meaning, a run without error preserves it -/
+theorem runInPlace_preserves {S : Type} (sem : M → S) (ps : List (Pass M E))
+    (hp : ∀ p ∈ ps, ∀ m, (p m).2 = none → sem (p m).1 = sem m) (m : M)
+    (h : (runInPlace ps m).2 = none) : sem (runInPlace ps m).1 = sem m := by
+  induction ps generalizing m with
+  | nil => rfl
+  | cons p ps ih =>
+    simp only [runInPlace] at h ⊢
+    cases hpm : p m with
+    | mk m' oe =>
+      cases oe with
+      | none =>
+        simp only [hpm] at h ⊢
+        rw [ih (fun q hq => hp q (List.mem_cons_of_mem _ hq)) m' h]
+        have := hp p (List.mem_cons_self ..) m (by simp [hpm])
+        simpa [hpm] using this
+      | some e => simp [hpm] at h
+
+/-- **Transactional policy is sound for aborts at ANY point, also INSIDE a pass**: whatever a raising
+    pass left behind, the model returned under the default policy means what the input meant — provided
+    only that passes which complete preserve the meaning (C02). -/
+theorem policyTx_sound {S : Type} (sem : M → S) (ps : List (Pass M E))
+    (hp : ∀ p ∈ ps, ∀ m, (p m).2 = none → sem (p m).1 = sem m) (m m' : M)
+    (h : policyTx ps false m = .ok m') : sem m' = sem m := by
+  unfold policyTx at h
+  cases hr : runInPlace ps m with
+  | mk r oe =>
+    cases oe with
+    | none =>
+      simp only [hr, Except.ok.injEq] at h
+      subst h
+      have := runInPlace_preserves sem ps hp m (by simp [hr])
+      simpa [hr] using this
+    | some e =>
+      simp only [hr, Bool.false_eq_true, if_false, Except.ok.injEq] at h
+      subst h; rfl
+
+/-- the default policy never raises; the strict policy re-raises the first error -/
+theorem policyTx_nonstrict_total (ps : List (Pass M E)) (m : M) : ∃ m', policyTx ps false m = .ok m' := by
+  unfold policyTx
+  cases runInPlace ps m with
+  | mk r oe => cases oe <;> simp
+
+theorem policyTx_strict_reraises (ps : List (Pass M E)) (m : M) (e : E) (r : M)
+    (h : runInPlace ps m = (r, some e)) : policyTx ps true m = .error e := by
+  simp [policyTx, h]
+
+/-- a pass that rewires in two steps and raises between them: first it corrupts the model (meaning
+    changes), then it would repair it -/
+def halfPass : Pass Nat String := fun m => (m + 1, some "raised between the two rewiring steps")
+
+/-- **The in-place policy (before the repair) is NOT sound for aborts inside a pass**: the hypothesis of
+    `policyTx_sound` holds (the only pass never completes), yet the returned model means something
+    else. This is the former finding F-C16-midpass-*. -/
+theorem policyInPlace_unsound :
+    (∀ p ∈ [halfPass], ∀ m, (p m).2 = none → id (p m).1 = id m) ∧
+    policyInPlace [halfPass] false 5 = .ok 6 ∧ policyTx [halfPass] false 5 = .ok 5 := by
+  refine ⟨?_, rfl, rfl⟩
+  intro p hp m h
+  simp only [List.mem_singleton] at hp
+  subst hp
+  simp [halfPass] at h
+
+-- non-vacuity of `policyTx_sound`: a completing pass followed by a raising one
+example : policyTx [(fun m => (m, none)), halfPass] false 5 = .ok 5 := rfl
+example : policyTx [(fun m : Nat => (m, (none : Option String)))] false 5 = .ok 5 := rfl
+
 def errOf {A : Type} : Except Err A → Option Err
   | .error e => some e
   | .ok _ => none
